@@ -293,6 +293,27 @@ func runHistFile(dir string, content string) (v *lib.Violation, obs string) {
 			bad = fmt.Sprintf("after Load the history holds %d entries, maximum %d", len(sh.Entries), bound)
 			return
 		}
+		// a file that decodes holds a log: what is kept of it must be its most recent entries, in order
+		var ref history.SearchHistory
+		if lerr == nil && json.Unmarshal([]byte(content), &ref) == nil {
+			keep := ref.Entries
+			if len(keep) > bound {
+				keep = keep[len(keep)-bound:]
+			}
+			if len(keep) != len(sh.Entries) {
+				bad = fmt.Sprintf("the file holds %d entries (maximum in force %d); after Load the history holds %d", len(ref.Entries), bound, len(sh.Entries))
+				return
+			}
+			for i := range keep {
+				if keep[i].Query != sh.Entries[i].Query || !keep[i].Timestamp.Equal(sh.Entries[i].Timestamp) {
+					bad = fmt.Sprintf("after Load entry %d is %q; the most recent %d entries of the file start at %q (older entries kept, newer ones dropped)", i, sh.Entries[i].Query, len(keep), keep[0].Query)
+					return
+				}
+			}
+			if len(ref.Entries) > bound {
+				obs += "trimmed;"
+			}
+		}
 		// the search command ignores the Load error and records the search
 		prev := len(sh.Entries)
 		lastQ := ""
